@@ -67,10 +67,21 @@ def skip_cell(op, lv, rv):
     return False
 
 
+_ANALYSES = [0]
+
+
 def analyse(code):
     from pedal.core.commands import clear_report, contextualize_report
     from pedal.tifa import tifa_analysis
     clear_report()
+    _ANALYSES[0] += 1
+    if _ANALYSES[0] % 7 == 3:
+        # the grader keeps this submission's report to herself (the default report holds another program meanwhile)
+        from pedal.core.report import Report
+        contextualize_report('the_default_reports_program = "text"\nprint(the_default_reports_program + "s")\n')
+        own = Report()
+        contextualize_report(code, report=own)
+        return tifa_analysis(report=own)
     contextualize_report(code)
     return tifa_analysis()
 
